@@ -44,6 +44,14 @@ fn ints<C: Cm>(case: &IntCase) -> PResult {
             let v = no_panic(&format!("usize_from_seq_panic/{n_}"), &format!("usize::from(Seq) of {what}"), || usize::from(o.clone()))?;
             ensure_eq!(v, exp, format!("usize_from_seq_prov/{n_}"), "usize::from(Seq) of {what}");
         }
+        // the k-mer obtained from the owned sequence (by value) carries the same integer
+        if let Some(r) = no_panic(&format!("kmer_try_from_seq_panic/{n_}"), &format!("Kmer::try_from(Seq) of {what}"), || kcall_usize(C::ID, n, &UReq::TryFromSeq(case.s.clone())))? {
+            match r? {
+                URes::Built(Ok(k)) => ensure_eq!(k.bs, exp as u128, format!("kmer_try_from_seq/{n_}"), "integer of Kmer::try_from(Seq) of {what}"),
+                URes::Built(Err(e)) => fail!(format!("kmer_try_from_seq_refused/{n_}"), "Kmer::<_, {n}>::try_from(Seq) of {what} failed: {e:?}"),
+                other => fail!("harness/kmer_dispatch", "unexpected dispatch result {other:?}"),
+            }
+        }
         if total <= 8 {
             let v = no_panic(&format!("u8_from_slice_panic/{n_}"), &format!("u8::from(&slice) of {what}"), || u8::from(sl))?;
             ensure_eq!(v as usize, exp, format!("u8_from_slice/{n_}"), "u8::from(&slice) of {what}");
@@ -64,7 +72,7 @@ fn ints<C: Cm>(case: &IntCase) -> PResult {
     Ok(Pass::new(off != 0 || total == 64).class_if(total > 64, "too_long").class_if(total == 64, "exactly_one_word").class_if(off != 0, "offset").class_if(off + total > 64 && off != 0 && total <= 64, "straddles_words"))
 }
 
-fn int_dispatch(c: &IntCase) -> PResult {
+pub fn int_dispatch(c: &IntCase) -> PResult {
     with_codec!(c.codec, C, ints::<C>(c))
 }
 
@@ -192,7 +200,7 @@ fn image<C: Cm>(case: &ImgCase) -> PResult {
     Ok(Pass::new(!case.s.repr.is_plain()).class(kind).class_if(bits == 5 || bits == 6, "width_not_dividing_64"))
 }
 
-fn image_dispatch(c: &ImgCase) -> PResult {
+pub fn image_dispatch(c: &ImgCase) -> PResult {
     with_codec!(c.codec, C, image::<C>(c))
 }
 
@@ -245,7 +253,7 @@ fn raw_image<C: Cm>(case: &RawCase) -> PResult {
     Ok(Pass::new(!raw.is_empty()).class_if(raw.is_empty(), "empty_image"))
 }
 
-fn raw_dispatch(c: &RawCase) -> PResult {
+pub fn raw_dispatch(c: &RawCase) -> PResult {
     with_codec!(c.codec, C, raw_image::<C>(c))
 }
 
